@@ -90,7 +90,10 @@ Make a change to the library's NON-test source files in {wt} that
 
 {steer}
 
-Keep the diff small to medium (5-120 changed lines). Do not edit existing *_test.go files or testdata. If an existing
+Keep the diff small to medium (5-120 changed lines). Do not edit existing *_test.go files or testdata. Do NOT use
+`git stash` (the stash is shared between all worktrees of this repository and other people are working in sibling
+worktrees right now): to compare with the original code use `git diff > /tmp/<yourname>.p; git apply -R /tmp/<yourname>.p;
+...; git apply /tmp/<yourname>.p`. If an existing
 test pins the behaviour you wanted to change, pick a different change.
 
 ## Output files (write exactly these, into {out})
